@@ -220,6 +220,16 @@ R19 = {
  "C19": "producing the redacted dump writes only memory the redactor allocated, also below the first level of a copied map",
  "C20": "v2.TLSConfig is decoded by its struct tags only (no custom decoder accepting names the raw redactor does not know); a one-level copy is not handed to a nested writer",
 }
+R20 = {
+ "C03": "on every path of onUpstreamHeaders that retries, the abandoned response is dropped from the stream before setupRetry",
+ "C08": "the recover handler of the goroutine that parses an http1 connection closes the connection",
+ "C09": "the keepalive records the heartbeat's stream and resets it when the heartbeat times out",
+ "C11": "no StageManager method works on a copy of the manager (value receiver that writes, locks or calls a pointer method)",
+ "C14": "the ip_access single-address table is written and read with the canonical text of the parsed address",
+ "C16": "every send on a session checker channel is a select case beside <-stop",
+ "C17": "the xDS conversion carries host_rewrite_header",
+ "C18": "the error of every DATA frame write flows into a return value; the connection error FLOW_CONTROL_ERROR of a WINDOW_UPDATE is raised only for the connection window; a DATA frame the server refuses with a stream error is returned to the connection window first",
+}
 GENERIC = "generic hygiene over the property's packages: no loop-variable address escapes its iteration, every mutex acquired in a function is released on every path to its return and not re-acquired in a callee, a field accessed through sync/atomic is never accessed plainly outside construction (frozen exceptions), storage given back to a pool is not returned or stored, no append onto a loop-invariant slice whose result is kept, no signed remainder of a converted unsigned 64-bit value or of a wrapping signed 32-bit counter, no remainder of a 32-bit sum with an unreduced atomic counter, a receiver field a method rewrites is not retained by what the method hands it to, a key looked up in a map field under a mutex and inserted when absent is inserted in the same critical section"
 props = [json.loads(l)['id'] for l in open('/verif/properties.jsonl')]
 checks, na = [], []
@@ -247,6 +257,8 @@ for p in props:
         dec = dec + "; " + R18[p]
     if p in R19:
         dec = dec + "; " + R19[p]
+    if p in R20:
+        dec = dec + "; " + R20[p]
     dec = dec + "; " + GENERIC
     tech = tech + ", lock-balance and atomic-discipline dataflow"
     if p in R8:
